@@ -359,6 +359,7 @@ static std::string out_slug(const vf::Outcome &o)
 }
 
 static vf::GuardArena g_arena;
+static void heap_events(Ctx &c, const std::string &what);
 
 // ------------------------------------------------------------------ one (value, option tuple) case
 enum Verdict { V_SKIP, V_EQUAL, V_MISMATCH, V_UNEXPECTED };
@@ -537,6 +538,83 @@ static std::string describe_single(const Val &v, const Opt &q)
                 describe_val(v).c_str(), WN[q.w], nat);
 }
 
+
+// ------------------------------------------------------------------ user-defined argument types
+// A user-defined format_type may itself call ST::format (the documented way to reuse the library's rendering) and hand the
+// result on with ST::format_string: the rendering of a field is then the inner call's text, padded like any string, and the
+// outer call's literals and other fields are unaffected by the nested call.
+struct NestPoint {
+    int x, y;
+};
+struct NestLine {
+    NestPoint a, b;
+};
+inline void format_type(const ST::format_spec &spec, ST::format_writer &out, const NestPoint &p)
+{
+    ST::string inner = ST::format("({},{})", p.x, p.y);
+    ST::format_string(spec, out, inner.c_str(), inner.size());
+}
+inline void format_type(const ST::format_spec &spec, ST::format_writer &out, const NestLine &l)
+{
+    ST::string inner = ST::format("{}-{}", l.a, l.b);  // two levels of nesting
+    ST::format_string(spec, out, inner.c_str(), inner.size());
+}
+static const char *const NEST_FMT[] = {"{}", "P{}", "{}Q", "P{}Q", "{}{}", "a{}b{}c", "{>12}|", "{<12}|", "{_*14}", "{&2}{&1}", "{}{&1}{}", "{{{}}}", "xx{.3}yy"};
+enum { N_NEST_FMT = sizeof NEST_FMT / sizeof *NEST_FMT };
+static void run_nested(Ctx &c, uint64_t i)
+{
+    unsigned fi = (unsigned)vf::take(i, N_NEST_FMT), kind = (unsigned)vf::take(i, 4), sink = (unsigned)vf::take(i, 3);
+    NestPoint p1{1, 2}, p2{-30, 400};
+    NestLine ln{p1, p2};
+    // the reference: the same format string with the nested renderings passed as plain strings
+    const std::string s1 = "(1,2)", s2 = "(-30,400)", sl = "(1,2)-(-30,400)";
+    std::string f = NEST_FMT[fi];
+    const char *fp = g_arena.place(f.c_str(), f.size() + 1);
+    ref::Parsed parsed = ref::parse(f);
+    std::vector<ref::Arg> model;
+    switch (kind) {
+    case 0: model = {ref::Arg::str(s1), ref::Arg::str(s2)}; break;
+    case 1: model = {ref::Arg::str(sl), ref::Arg::str(s1)}; break;
+    case 2: model = {ref::Arg::str(s1), ref::Arg::integer(7)}; break;
+    default: model = {ref::Arg::integer(7), ref::Arg::str(sl)}; break;
+    }
+    ref::Rendered want = ref::render(parsed, model);
+    if (want.outcome != ref::R_TEXT) {
+        VF_COUNT("out:skipped(reference-not-text)");
+        return;
+    }
+    ST::string got;
+    vf::Outcome oc = vf::guard([&] {
+        auto call = [&](auto &&...a) {
+            if (sink == 0) return ST::format(fp, a...);
+            if (sink == 1) return ST::format(ST::check_validity, fp, a...);
+            return ST::literals::operator""_stfmt(fp, f.size())(a...);
+        };
+        switch (kind) {
+        case 0: got = call(p1, p2); break;
+        case 1: got = call(ln, p1); break;
+        case 2: got = call(p1, 7); break;
+        default: got = call(7, ln); break;
+        }
+    });
+    VF_COUNT("ops");
+    heap_events(c, f);
+    static const char *KN[4] = {"(Point, Point)", "(Line, Point)", "(Point, int)", "(int, Line)"};
+    if (!oc.ok()) {
+        c.fail(strf("nested-format:unexpected-%s", out_slug(oc).c_str()), strf("ST::format(%s, %s) -> %s", vf::vis(f).c_str(), KN[kind], oc.str().c_str()));
+        return;
+    }
+    VF_COUNT("validated");
+    std::string g(got.c_str(), got.size());
+    if (g == want.bytes) {
+        VF_COUNT("out:equal");
+        c.nontrivial();
+        return;
+    }
+    c.fail(strf("nested-format:%s", diff_kind(want.bytes, g)),
+           strf("ST::format(%s, %s) with user-defined types whose format_type calls ST::format = %s ; specified %s", vf::vis(f).c_str(), KN[kind],
+                vf::vis(g).c_str(), vf::vis(want.bytes).c_str()));
+}
 
 // ------------------------------------------------------------------ a field that names two pad items
 // "{08_*}" / "{_*08}": the statement does not say which of the two pad items wins, but whichever does, the
@@ -964,6 +1042,13 @@ static void build(vf::Plan &plan, const vf::Opts &o)
                        return strf("ST::format(%s, %s)", vf::vis(f).c_str(), describe_val(wv[vi]).c_str());
                    });
     }
+
+    plan.stage(strf("user-defined argument types whose format_type calls ST::format (1 and 2 levels): %u format strings x 4 argument lists x 3 entry points", (unsigned)N_NEST_FMT),
+               (uint64_t)N_NEST_FMT * 4 * 3, [](uint64_t i, Ctx &c) { run_nested(c, i); },
+               [](uint64_t i) {
+                   unsigned fi = (unsigned)vf::take(i, N_NEST_FMT), kind = (unsigned)vf::take(i, 4), sink = (unsigned)vf::take(i, 3);
+                   return strf("format %s, argument list #%u, entry point #%u", vf::vis(NEST_FMT[fi]).c_str(), kind, sink);
+               });
 
     for (unsigned k = 0; k <= 3; ++k)
         plan.stage(strf("multi-field: %u field(s) from 10 x literals from 6 x 1..3 arguments", k), multi_count(k, 6),
